@@ -105,7 +105,9 @@ CHECKS = {
         "chiral classes and returns self otherwise; inversion tables are "
         "improper operations; the change setters (which replace a centre's "
         "whole entry) are never called once per role inside a loop over one "
-        "change dictionary (R-SETTER-ONCE).",
+        "change dictionary (R-SETTER-ONCE); a guarded early return in "
+        "front of the inversion reads, per class, every slot the skipped "
+        "inversion writes (R-ENANT-FASTPATH).",
         "Not decided: g == g.enantiomer() exactly for achiral / meso "
         "structures (needs search completeness).",
         "DESIGN.md 3/C06"),
